@@ -20,8 +20,16 @@ import (
 
 var valueStructCache = map[types.Type]bool{}
 
+func isExternalNamed(t types.Type) bool {
+	n, ok := types.Unalias(t).(*types.Named)
+	return ok && n.Obj().Pkg() != nil && !strings.HasPrefix(n.Obj().Pkg().Path(), modPath)
+}
+
 func (w *World) isValueStruct(t types.Type) bool {
 	t = types.Unalias(t)
+	if isExternalNamed(t) {
+		return false
+	}
 	if v, ok := valueStructCache[t]; ok {
 		return v
 	}
@@ -61,7 +69,7 @@ func (w *World) isValueStruct(t types.Type) bool {
 }
 
 func (w *World) isRefStruct(t types.Type) bool {
-	if t == nil {
+	if t == nil || isExternalNamed(t) {
 		return false
 	}
 	_, ok := types.Unalias(t).Underlying().(*types.Struct)
